@@ -555,7 +555,7 @@ func c05Reuse(c *fw.Ctx, i int) {
 
 func runC05(c *fw.Ctx) {
 	c.Level = "fault_enumeration"
-	c.Rule = "seeded packet sequences of 3-8 packets from a publisher (PUBLISH QoS 0/1/2 with fresh identifiers, QoS 1 with the retain flag and an empty payload, PUBREL for a pending identifier, repeated PUBREL for a completed one, forced handshake-timeout sweep, repeated PUBLISH for a pending identifier as last packet) on 1-3 nodes that all host a matching subscriber, while a second client on the same node holds unreleased QoS 2 publishes with the same packet identifiers; for each sequence EVERY single fault position is run on a fresh cluster: none, the k-th local log write fails for every k up to the number of writes of the fault-free run, each remote node unreachable, each remote node's log rejecting writes (thorough: also local x remote combinations). Observed with one global sequence counter: Append call/return per node, RPC call/return, packets read by the publisher. Oracle: an acknowledgement (PUBACK/PUBCOMP) is read only after a successful Append returned on every node, and never when a write failed; log offers per tag = completed PUBLISH->PUBREL handshakes (0 after PUBLISH alone or after a timed-out handshake, 1 after PUBREL, still 1 after repeated PUBREL). Gated scenarios: no acknowledgement while the log write is blocked. Identifier-reuse scenarios: a second QoS 2 publish reusing a completed handshake's identifier 1.5 s later survives a sweep placed between the two deadlines. distinct = (nodes, sequence, fault); non-trivial = sequence contains a QoS>=1 forwarding"
+	c.Rule = "seeded packet sequences of 3-8 packets from a publisher (PUBLISH QoS 0/1/2 with fresh identifiers, QoS 1 with the retain flag and an empty payload, PUBREL for a pending identifier, repeated PUBREL for a completed one, forced handshake-timeout sweep, repeated PUBLISH for a pending identifier as last packet) on 1-3 nodes that all host a matching subscriber, while a second client on the same node holds unreleased QoS 2 publishes with the same packet identifiers; for each sequence EVERY single fault position is run on a fresh cluster: none, the k-th local log write fails for every k up to the number of writes of the fault-free run, each remote node unreachable, each remote node's log rejecting writes (thorough: also local x remote combinations). Observed with one global sequence counter: Append call/return per node, RPC call/return, packets read by the publisher. Oracle: an acknowledgement (PUBACK/PUBCOMP) is read only after a successful Append returned on every node, and never when a write failed; log offers per tag = completed PUBLISH->PUBREL handshakes (0 after PUBLISH alone or after a timed-out handshake, 1 after PUBREL, still 1 after repeated PUBREL). Gated scenarios: no acknowledgement while the log write is blocked. Identifier-reuse scenarios: a second QoS 2 publish reusing a completed handshake's identifier 1.5 s later survives a sweep placed between the two deadlines. Fault kinds also: the first reply of a remote node lost after it appended (no second append anywhere); shutdown scenarios: the publisher node's context is cancelled while the write to another node is pending (no acknowledgement). distinct = (nodes, sequence, fault); non-trivial = sequence contains a QoS>=1 forwarding"
 	c.Assume("every node hosts a matching subscription known to the publisher's node (gossip barrier)")
 	c.Assume("a session dropped by the broker after a repeated PUBLISH for a pending identifier is accepted; nothing may be forwarded for it")
 	nSeq := c.Pick(36, 500)
